@@ -28,6 +28,7 @@ type pset struct {
 	Pow2     int      `json:"pow2,omitempty"`
 	NoNTT    bool     `json:"coeffDomain,omitempty"`
 	Xs       string   `json:"xs,omitempty"` // "" ternary p=0.5 | "h" sparse | "gauss"
+	Xe       string   `json:"xe,omitempty"` // "" default | "wide" | "tight" | "tern" | "ternH"
 }
 
 // sample renders the set for the evidence file (moduli as decimal strings: they exceed 2^53).
@@ -38,7 +39,7 @@ func (p pset) sample() map[string]any {
 		}
 		return
 	}
-	return map[string]any{"name": p.Name, "logN": p.LogN, "q": str(p.Q), "p": str(p.P), "ring": p.Ring, "t": p.T, "logScale": p.LogScale, "pow2": p.Pow2, "coeffDomain": p.NoNTT, "xs": p.Xs}
+	return map[string]any{"name": p.Name, "logN": p.LogN, "q": str(p.Q), "p": str(p.P), "ring": p.Ring, "t": p.T, "logScale": p.LogScale, "pow2": p.Pow2, "coeffDomain": p.NoNTT, "xs": p.Xs, "xe": p.Xe}
 }
 
 func (p pset) ringType() ring.Type {
@@ -388,6 +389,9 @@ func samplerKinds(n int) []samplerKind {
 		{"ternary-p0.1-mont", ring.Ternary{P: 0.1}, true},
 		{"ternary-h", ring.Ternary{H: n / 4}, false},
 		{"ternary-h-mont", ring.Ternary{H: n / 4}, true},
+		{"gaussian-tight", ring.DiscreteGaussian{Sigma: 0.5, Bound: 1}, false},
+		{"ternary-h1-mont", ring.Ternary{H: 1}, true},
+		{"ternary-hmax", ring.Ternary{H: n - 1}, false},
 		{"uniform", ring.Uniform{}, false},
 	}
 }
